@@ -677,6 +677,7 @@ type tprinter struct {
 	visited map[int]bool
 	facts   []*Term
 	factSet map[int]bool
+	letName map[int]string
 }
 
 func (p *tprinter) collect(t *Term) {
@@ -701,7 +702,7 @@ func (p *tprinter) collect(t *Term) {
 			p.defs = append(p.defs, t)
 		}
 	case kApp, kQuant:
-		if t.kind == kApp {
+		if t.kind == kApp && !strings.HasPrefix(t.op, "hint.") {
 			p.needFun(t.op)
 		}
 		for _, a := range t.args {
@@ -734,6 +735,10 @@ func quoteSym(s string) string {
 }
 
 func (p *tprinter) write(sb *strings.Builder, t *Term) {
+	if n := p.letName[t.id]; n != "" {
+		sb.WriteString(n)
+		return
+	}
 	switch t.kind {
 	case kLit:
 		sb.WriteString(t.name)
@@ -762,7 +767,7 @@ func (p *tprinter) write(sb *strings.Builder, t *Term) {
 			return
 		}
 		sb.WriteByte('(')
-		sb.WriteString(t.op)
+		sb.WriteString(strings.TrimPrefix(t.op, "hint."))
 		for _, a := range t.args {
 			sb.WriteByte(' ')
 			p.write(sb, a)
@@ -778,14 +783,63 @@ func (p *tprinter) write(sb *strings.Builder, t *Term) {
 		sb.WriteString(") ")
 		if len(t.args) == 2 {
 			sb.WriteString("(! ")
-			p.write(sb, t.args[0])
+			p.writeRoot(sb, t.args[0])
 			sb.WriteString(" :pattern (")
 			p.write(sb, t.args[1])
 			sb.WriteString("))")
 		} else {
-			p.write(sb, t.args[0])
+			p.writeRoot(sb, t.args[0])
 		}
 		sb.WriteByte(')')
+	}
+}
+
+// writeRoot prints t with let-bindings for the anonymous sub-terms it shares (the term layer is a DAG; printing it
+// as a tree can be exponentially larger). Quantifier bodies are roots of their own, so a binding never escapes the
+// scope of a bound variable it mentions.
+func (p *tprinter) writeRoot(sb *strings.Builder, t *Term) {
+	refs := map[int]int{}
+	var order []*Term
+	var count func(x *Term)
+	count = func(x *Term) {
+		if x.kind != kApp && x.kind != kQuant || len(x.args) == 0 {
+			return
+		}
+		refs[x.id]++
+		if refs[x.id] > 1 {
+			return
+		}
+		if x.kind == kApp {
+			for _, a := range x.args {
+				count(a)
+			}
+		}
+		order = append(order, x)
+	}
+	count(t)
+	var shared []*Term
+	for _, x := range order {
+		if refs[x.id] > 1 && x.size >= 10 && x != t && p.letName[x.id] == "" {
+			shared = append(shared, x)
+		}
+	}
+	if len(shared) == 0 {
+		p.write(sb, t)
+		return
+	}
+	if p.letName == nil {
+		p.letName = map[int]string{}
+	}
+	for _, x := range shared {
+		fmt.Fprintf(sb, "(let ((l$%d ", x.id)
+		p.write(sb, x)
+		sb.WriteString(")) ")
+		p.letName[x.id] = fmt.Sprintf("l$%d", x.id)
+	}
+	p.write(sb, t)
+	for _, x := range shared {
+		sb.WriteByte(')')
+		delete(p.letName, x.id)
 	}
 }
 
@@ -828,17 +882,17 @@ func (c *TermCtx) Query(asserts []*Term, wantModel bool, modelTerms []*Term) str
 	sort.Slice(p.defs, func(i, j int) bool { return p.defs[i].id < p.defs[j].id })
 	for _, d := range p.defs {
 		fmt.Fprintf(&sb, "(define-fun %s () %s ", quoteSym(d.name), d.sort)
-		p.write(&sb, d.def)
+		p.writeRoot(&sb, d.def)
 		sb.WriteString(")\n")
 	}
 	for _, f := range p.facts {
 		sb.WriteString("(assert ")
-		p.write(&sb, f)
+		p.writeRoot(&sb, f)
 		sb.WriteString(")\n")
 	}
 	for _, a := range asserts {
 		sb.WriteString("(assert ")
-		p.write(&sb, a)
+		p.writeRoot(&sb, a)
 		sb.WriteString(")\n")
 	}
 	sb.WriteString("(check-sat)\n")
@@ -963,4 +1017,116 @@ func (c *TermCtx) rebuild(op, sort string, args []*Term) *Term {
 		return c.Store(args[0], args[1], args[2])
 	}
 	return c.App(op, sort, args...)
+}
+
+
+// Polarize drops solver hints where they are a burden: "hint.and" (a universal statement with some of its instances)
+// keeps its instances only where it is assumed, "hint.or" (an existential with candidate witnesses) keeps its
+// candidates only where it is to be proved. t is a formula asserted to the solver; pos tells whether the position is
+// positive (assumed) or negative (to be refuted, i.e. proved).
+func (c *TermCtx) Polarize(t *Term, pos bool, memo map[[2]int]*Term) *Term {
+	if t.sort != "Bool" || t.kind == kLit || t.kind == kVar || t.kind == kBound {
+		return t
+	}
+	k := [2]int{t.id, 0}
+	if pos {
+		k[1] = 1
+	}
+	if r, ok := memo[k]; ok {
+		return r
+	}
+	r := t
+	switch {
+	case t.kind == kApp && (t.op == "hint.and" || t.op == "hint.or"):
+		keep := pos == (t.op == "hint.and")
+		if !keep {
+			r = c.Polarize(t.args[0], pos, memo)
+		} else {
+			as := make([]*Term, len(t.args))
+			for i, a := range t.args {
+				as[i] = c.Polarize(a, pos, memo)
+			}
+			if t.op == "hint.and" {
+				r = c.And(as...)
+			} else {
+				r = c.Or(as...)
+			}
+		}
+	case t.kind == kApp && (t.op == "and" || t.op == "or"):
+		as := make([]*Term, len(t.args))
+		ch := false
+		for i, a := range t.args {
+			as[i] = c.Polarize(a, pos, memo)
+			ch = ch || as[i] != a
+		}
+		if ch {
+			if t.op == "and" {
+				r = c.And(as...)
+			} else {
+				r = c.Or(as...)
+			}
+		}
+	case t.kind == kApp && t.op == "ite" && len(t.args) == 3:
+		a, b := c.Polarize(t.args[1], pos, memo), c.Polarize(t.args[2], pos, memo)
+		if a != t.args[1] || b != t.args[2] {
+			r = c.Ite(t.args[0], a, b)
+		}
+	case t.kind == kApp && t.op == "not":
+		a := c.Polarize(t.args[0], !pos, memo)
+		if a != t.args[0] {
+			r = c.Not(a)
+		}
+	case t.kind == kApp && t.op == "=>":
+		a, b := c.Polarize(t.args[0], !pos, memo), c.Polarize(t.args[1], pos, memo)
+		if a != t.args[0] || b != t.args[1] {
+			r = c.Implies(a, b)
+		}
+	case t.kind == kQuant:
+		b := c.Polarize(t.args[0], pos, memo)
+		if b != t.args[0] {
+			args := append([]*Term{b}, t.args[1:]...)
+			nt := c.intern(&Term{kind: kQuant, op: t.op, sort: "Bool", args: args, bvars: t.bvars})
+			nt.bound = c.hasFreeBound(nt)
+			r = nt
+		}
+	case t.kind == kDef && t.def != nil:
+		nd := c.Polarize(t.def, pos, memo)
+		if nd != t.def {
+			r = c.Name(nd, strings.SplitN(t.name, "!", 2)[0])
+		}
+	}
+	memo[k] = r
+	return r
+}
+
+
+// AbstractForalls replaces every universally quantified sub-formula by a fresh Boolean constant (the same constant for
+// the same formula). The result is satisfiable whenever t is, so a reachability (cover) query never reports a dead
+// path because of it; solvers answer "unknown" far less often without the quantifiers. Instances added as hints stay.
+func (c *TermCtx) AbstractForalls(t *Term) *Term {
+	var qs []*Term
+	seen := map[int]bool{}
+	var walk func(x *Term)
+	walk = func(x *Term) {
+		if seen[x.id] {
+			return
+		}
+		seen[x.id] = true
+		if x.kind == kQuant && x.op == "forall" && !x.bound {
+			qs = append(qs, x)
+			return
+		}
+		if x.kind == kDef && x.def != nil {
+			walk(x.def)
+		}
+		for _, a := range x.args {
+			walk(a)
+		}
+	}
+	walk(t)
+	for _, q := range qs {
+		v := c.intern(&Term{kind: kVar, name: fmt.Sprintf("q$%d", q.id), sort: "Bool"})
+		t = c.Subst(t, q, v, map[int]*Term{})
+	}
+	return t
 }
